@@ -37,7 +37,7 @@ def s_c06(rng, tier, st):
            gen_ops.gen_api_walk(rng, N(tier, 6, 60), 25, invalid_rate=0.25, stats=st)
 def s_c07(rng, tier, st): return gen_ops.gen_parallel(rng, N(tier, 8, 100), stats=st)
 def s_c10(rng, tier, st): return gen_ops.gen_keylen(rng, stats=st, junk_patterns=(0xA5, 0x00) if tier == "quick" else (0xA5, 0x00, 0xFF, 0x3C))
-def s_c14(rng, tier, st): return gen_ops.gen_api_walk(rng, N(tier, 30, 400), 30, invalid_rate=0.35, stats=st) + gen_ops.gen_tweak(rng, N(tier, 2, 20), stats=st)
+def s_c14(rng, tier, st): return gen_ops.gen_invalid_midstream(rng, N(tier, 6, 60), stats=st) + gen_ops.gen_api_walk(rng, N(tier, 30, 400), 30, invalid_rate=0.35, stats=st) + gen_ops.gen_tweak(rng, N(tier, 2, 20), stats=st)
 def s_c15(rng, tier, st): return gen_ops.gen_api_walk(rng, N(tier, 30, 400), 40, invalid_rate=0.1, stats=st)
 def s_c16(rng, tier, st): return gen_ops.gen_api_walk(rng, N(tier, 30, 400), 25, invalid_rate=0.1, fail_rate=0.5, stats=st)
 def s_c17(rng, tier, st): return gen_ops.gen_api_walk(rng, N(tier, 24, 300), 20, invalid_rate=0.05, stats=st)
@@ -490,7 +490,8 @@ def thm(pid, mods, names):
     PROPS[pid]["theorems"] = [(n if n.startswith("SkinnyVerif.") else P + n) for n in names]
 
 thm("C01", ["C01"], ["C01_skinny128", "C01_skinny64"])
-thm("C03", ["C03"], ["C03_skinny128", "C03_skinny64", "C03_tweaked128", "C03_tweaked64", "spec128_dec_enc", "spec128_enc_dec", "spec64_dec_enc", "spec64_enc_dec"])
+thm("C03", ["C03", "C03M"], ["C03_skinny128", "C03_skinny64", "C03_tweaked128", "C03_tweaked64", "spec128_dec_enc", "spec128_enc_dec", "spec64_dec_enc", "spec64_enc_dec",
+            "C03_mantis_spec", "C03_mantis_impl", "crypt_flip", "C02_swap_enc_is_dec"])
 thm("C04", ["C04"], ["C04_skinny128", "C04_skinny64"])
 thm("C05", ["C05", "C06"], ["C05_stream", "C05_init", "C05_involution", "C05_calls", "C05_C06_instances"])
 thm("C06", ["C06"], ["C06_ctr", "C06_step", "C06_init", "C05_C06_instances"])
@@ -513,7 +514,7 @@ thm("C14", ["C14"], ["C14_no_fault", "C14_failed_call_changes_nothing", "C14_nul
 thm("C15", ["C14"], ["C15_balanced", "C15_single_owner", "C15_all_released", "C15_cleanup", "C15_cleanup_idempotent", "C14_no_fault", "C14_inert_object"])
 thm("C16", ["C14"], ["C16_alloc_failure", "C16_init_success", "C16_then_inert", "C14_no_fault"])
 thm("C17", ["C14"], ["C17_wiped_before_free", "C17_source_sizes", "SkinnyVerif.Api.factsSizes_wipeOK"])
-thm("C02", ["C10"], ["C10_mantis_set_key"])
+thm("C02", ["C02", "C10"], ["C02_mantis", "C02_swap_modes", "C02_swap_enc_is_dec", "C02_swap_dec_is_enc", "C02_crypt_of_keys", "mantisPieces", "mantisKeys", "C10_mantis_set_key"])
 thm("C07", ["C07"], ["C07_skinny128", "C07_skinny64", "parallelBlocks_eq_ecb", "ecb_length", "C07_parallel_size"])
 thm("C08", ["C08"], ["C08_no_leak_events", "C08_table_complete"])
 thm("C09", ["C08"], ["C09_block_functions", "C09_table_complete", "C11_no_junk_in_loaders"])
